@@ -165,7 +165,7 @@ Proof.
     all: cbv beta iota.
     all: apply find_some in E1 as [E1 _].
     all: match goal with
-         | |- ofv_rel (bind (rewrap true (Ops.compat _ _ _ _ _ ?cl)) _) (bind (rewrap true (Ops.compat _ _ _ _ _ ?cl')) _) =>
+         | |- ofv_rel (bind (rewrap_path (Ops.compat _ _ _ _ _ ?cl)) _) (bind (rewrap_path (Ops.compat _ _ _ _ _ ?cl')) _) =>
              assert (Hc : is_ok (compat f e m cl) = is_ok (compat f e m cl'))
                by (apply IHc; [exact Hcl | exact Hncl | exact (inv_member _ _ _ _ _ _ (k1, m) Hwf E1)]);
              destruct (compat f e m cl), (compat f e m cl'); cbn in Hc; try discriminate;
@@ -396,7 +396,7 @@ Proof.
              apply (forallb_f2 _ _ _ _ _ (raw_by_f2 sel_str sel_str_leaf Qv kvs kvs1 HF2)).
              intros a b0 _ [Hk [Hp Hn]]. rewrite <- Hk.
              destruct (alookup (fst a) ps) as [p|] eqn:El; [|reflexivity].
-             unfold seg, rewrap. rewrite !ok_map_err, !ok_seq_v, !ok_map_err. f_equal.
+             unfold seg, rewrap_path. rewrite !ok_map_err, !ok_seq_v, !ok_map_err. f_equal.
              apply IHc; [exact Hp | exact Hn | exact (inv_prop _ _ _ _ _ (fst a, p) Hwf (alookup_in _ _ _ El))].
            - rewrite !is_ok_forM. apply forallb_ext'. intros np.
              destruct (p_required (snd np)); [|reflexivity].
@@ -404,7 +404,7 @@ Proof.
              destruct (alookup (fst np) (raw_by sel_str kvs)) as [d0|], (alookup (fst np) (raw_by sel_str kvs')) as [d0'|];
                try contradiction; [|reflexivity].
              destruct HL as [Hd _]. destruct Hd; reflexivity. }
-      all: cbv beta iota; rewrite !ok_then_ok by reflexivity; unfold rewrap; rewrite !ok_map_err; exact HsU.
+      all: cbv beta iota; rewrite !ok_then_ok by reflexivity; unfold rewrap_path; rewrite !ok_map_err; exact HsU.
     - (* one-of *)
       destruct Hv as [v | t b l l' HF | t b kvs kvs1 kvs' HF HP | t x x' Hx | t fs fs' HF]; [reflexivity|..];
         cbn [is_str_any_map kind_of].
